@@ -280,10 +280,16 @@ def write_raw_file(mon,log_file='paramlog.py',**kwds):
   if ids is not None:
     f.write('id = %s\n' % ids)
  #f.write('# %s\n' % energy[-1])
-  f.write('params = %s\n' % steps)
-  f.write('cost = %s\n' % energy)
+  f.write('params = %s\n' % _tolist(steps))
+  f.write('cost = %s\n' % _tolist(energy))
   f.close()
   return
+
+def _tolist(x):
+  "recursively convert numpy arrays and scalars to python lists and scalars"
+  if hasattr(x, 'tolist'): return x.tolist()
+  if isinstance(x, (list, tuple)): return type(x)(_tolist(i) for i in x)
+  return x
 
 def write_support_file(mon,log_file='paramlog.py',**kwds):
   """write parameter and solution trajectory to a log file in 'support' format
@@ -305,9 +311,8 @@ def write_support_file(mon,log_file='paramlog.py',**kwds):
   NOTE: params are the transpose of how they are stored in monitor.x
   """
   if isNull(mon): return  #XXX: throw error? warning? ???
-  monitor = write_monitor( *raw_to_support( *read_monitor(mon) ) )
+  monitor = write_monitor( *raw_to_support( *read_monitor(mon) ), k=mon.k )
   monitor._id = mon._id[:] #HACK: workaround loss of id above
-  monitor.k = mon.k #HACK: workaround loss of k above (ensure is copy?)
   header = "written in 'support' format"
   if 'header' in kwds:
     header += "\n# " + str(kwds['header'])
@@ -317,9 +322,8 @@ def write_support_file(mon,log_file='paramlog.py',**kwds):
 
 def write_converge_file(mon,log_file='paramlog.py',**kwds):
   if isNull(mon): return  #XXX: throw error? warning? ???
-  monitor = write_monitor( *raw_to_converge( *read_monitor(mon) ) )
+  monitor = write_monitor( *raw_to_converge( *read_monitor(mon) ), k=mon.k )
   monitor._id = mon._id[:] #HACK: workaround loss of id above
-  monitor.k = mon.k #HACK: workaround loss of k above (ensure is copy?)
   header = "written in 'converge' format"
   if 'header' in kwds:
     header += "\n# " + str(kwds['header'])
